@@ -98,6 +98,42 @@ def run(tier, seed):
                     m = None
                 if m is not None:
                     cases.append((s, m[1], "mut:" + m[0], strict, dtn))
+    # typed arrays (array.array) as data of array schemas: conformance is decided by the items' values, not by the
+    # typecode's width (an unsigned 32-bit item can exceed the range of "int", an unsigned 64-bit one that of "long")
+    import array as _array
+    import random as _random
+    r_ = _random.Random(seed * 101 + 10)
+    RANGES = {"b": (-2 ** 7, 2 ** 7 - 1), "B": (0, 2 ** 8 - 1), "h": (-2 ** 15, 2 ** 15 - 1), "H": (0, 2 ** 16 - 1),
+              "i": (-2 ** 31, 2 ** 31 - 1), "I": (0, 2 ** 32 - 1), "l": (-2 ** 63, 2 ** 63 - 1), "L": (0, 2 ** 64 - 1),
+              "q": (-2 ** 63, 2 ** 63 - 1), "Q": (0, 2 ** 64 - 1)}
+    for tc in sorted(RANGES):
+        lo, hi = RANGES[tc]
+        for T in ("int", "long", "float", "double"):
+            tlo, thi = (-2 ** 31, 2 ** 31 - 1) if T == "int" else (-2 ** 63, 2 ** 63 - 1)
+            inside = [x for x in (lo, hi, 0, 1, tlo, thi) if lo <= x <= hi and tlo <= x <= thi]
+            outside = [x for x in (lo, hi, thi + 1, tlo - 1) if lo <= x <= hi and not tlo <= x <= thi]
+            variants = [[], [r_.choice(inside)], [r_.choice(inside) for _ in range(3)]]
+            if outside:
+                variants += [[r_.choice(outside)], [r_.choice(inside), r_.choice(outside)], [r_.choice(outside), r_.choice(inside), r_.choice(inside)]]
+            for vals in variants:
+                try:
+                    arr = _array.array(tc, vals)
+                except OverflowError:
+                    continue
+                base = {"type": "array", "items": T}
+                wrap = r_.random()
+                if wrap < 0.5:
+                    s, v = base, arr
+                elif wrap < 0.75:
+                    s, v = {"type": "record", "name": "TA", "fields": [{"name": "xs", "type": base}, {"name": "n", "type": "int"}]}, {"xs": arr, "n": 1}
+                else:
+                    s, v = ["null", base, "string"], arr
+                cases.append((s, v, "typed-array:" + tc + "/" + T, False, False))
+    for k in range(scale(tier, 12)):
+        tc = r_.choice(["f", "d"])
+        arr = _array.array(tc, [r_.choice([0.5, -1.25, 1e10, 3.0]) for _ in range(r_.randint(0, 3))])
+        T = r_.choice(["int", "long", "float", "double"])
+        cases.append(({"type": "array", "items": T}, arr, "typed-array:" + tc + "/" + T, False, False))
     reqs = []
     for (s, v, kind, strict, dtn) in cases:
         ws, wv = to_wire(s), to_wire(v)
